@@ -116,6 +116,21 @@ func (x *ctx) invoke(st *state, fr *frame, recv val, m *types.Func, args []val, 
 		}
 		return x.contractCall(st, fr, con, nil, append([]val{recv}, args...), rt)
 	}
+	// the receiver is an object allocated by this execution: its dynamic type is known, the call resolves statically
+	if recv.t.s != "" {
+		if at, ok := x.lastAllocType[recv.t.s]; ok {
+			if named, ok := at.(*types.Named); ok {
+				named = named.Origin()
+				for i := 0; i < named.NumMethods(); i++ {
+					if named.Method(i).Name() == m.Name() {
+						if f := x.w.prog.FuncValue(named.Method(i)); f != nil {
+							return x.callStatic(st, fr, f, nil, append([]val{recv}, args...), rt)
+						}
+					}
+				}
+			}
+		}
+	}
 	// interfaces without contract: user-callback rule
 	return x.userCallback(st, fr, "invoke:"+m.FullName(), m.Name(), rt, args...)
 }
